@@ -121,6 +121,10 @@ def main(tier=None):
     brokerlib.run_scenarios(c, "abandoned-exchanges-with-witness", scs, samples)
     brokerlib.add_refused_connect_suite(c, samples)
     brokerlib.run_scenarios(c, "everything-mixed", [brokerlib.gen_soup(c.rng) for _ in range(6 if c.tier == "quick" else 100)], samples)
+    # a connection that is superseded and then ends must not take anybody else down with it
+    scs = brokerlib.corpus(c.rng, ["displacer-gone-before-ping", "takeover-with-unacked-delivery", "returning-client-will"])
+    scs += [brokerlib.gen_lifecycle(c.rng, c.rng.choice([1, 2]), 1, takeover=0.6) for _ in range(4 if c.tier == "quick" else 60)]
+    brokerlib.run_scenarios(c, "superseded-connections", scs, samples)
     c.assumptions += ["the MQTT decoder (module cache) is modelled, not verified", "memory exhaustion and a client that stops READING (writer blocked until its deadline) are outside the model: partial for 'stall'"]
     return c.finish(samples=samples,
                     rule="case = one hostile byte stream (valid packet or structure-aware mutation), before CONNECT or inside a session, whole or "
